@@ -88,6 +88,28 @@ func NewEngine(repo *chain.Repository, mainDB *muxdb.MuxDB, forkConfig *thor.For
 		engine.finalized.Store(thor.BytesToBytes32(val))
 	}
 
+	// A stop between repo.AddBlock and CommitBlock leaves the last added block, still a chain head,
+	// without its quality record: every later round on that chain would then start from quality 0.
+	// Commit it again; the result only depends on the stored blocks.
+	heads, err := repo.ScanHeads(block.Number(engine.Finalized()))
+	if err != nil {
+		return nil, err
+	}
+	for _, id := range heads {
+		if num := block.Number(id); num < forkConfig.FINALITY || getStorePoint(num) != num {
+			continue
+		}
+		if _, err := loadQuality(engine.data, id); engine.data.IsNotFound(err) {
+			sum, err := repo.GetBlockSummary(id)
+			if err != nil {
+				return nil, err
+			}
+			if err := engine.CommitBlock(sum.Header, sum.Conflicts, false); err != nil {
+				return nil, err
+			}
+		}
+	}
+
 	return &engine, nil
 }
 
